@@ -248,9 +248,12 @@ def run(model, col, tier):
     runf = nslr.functions.get("run")
     if runf is None:
         raise AnchorMissing("nslr.py::run")
-    loop = next((l for l in ast.walk(runf) if isinstance(l, ast.For) and "Arguments" in unparse(l.iter)), None)
+    from ..sem import local_env as _le175, rtext as _rt175
+
+    env175 = _le175(runf, allow_impure=True)
+    loop = next((l for l in ast.walk(runf) if isinstance(l, ast.For) and "Arguments" in _rt175(l.iter, env175)), None)
     tnames = [x.id for x in ast.walk(loop.target) if isinstance(x, ast.Name)] if loop is not None else []
-    if loop is None or len(tnames) < 2 or ".items()" not in unparse(loop.iter):
+    if loop is None or len(tnames) < 2 or ".items()" not in _rt175(loop.iter, env175):
         raise AnchorMissing("nslr.py::run loop over entryPoint.Type.Arguments.items()")
     # items() yields (name, type): the type is the last name bound by the loop target, however it is nested (enumerate(..))
     tname = [x.id for x in sorted((x for x in ast.walk(loop.target) if isinstance(x, ast.Name)), key=lambda x: (x.lineno, x.col_offset))][-1]
